@@ -3,6 +3,7 @@ import EinoV.Model.C04Flat
 import EinoV.Model.C04Lazy
 import EinoV.Model.C04Key
 import EinoV.Model.C04FMap
+import EinoV.Model.C04ErrItem
 import EinoV.Expected.C04
 
 namespace EinoV.Oracle.C04
@@ -155,6 +156,44 @@ def handleKeyVal (c : Json) : JE Json := do
   pure (Json.mkObj [("value", value), ("stream", resS (lazyConcat strCo (keyStream kvs))),
     ("panics", Json.bool (panicsAt true kvs))])
 
+/-! ### family "erritem": the error value of an error item (`Model/C04ErrItem.lean`) -/
+
+/-- the error shapes of the case language and their relation to io.EOF -/
+def eofRelOf (name : String) : EOFRel :=
+  if name == "is-eof" then .identical
+  else if ["wrap-eof", "url-eof", "deep-eof", "join-eof", "is-method-eof"].contains name then .reaches
+  else .unrelated
+
+def strCo : ChunkOps String := { concatItems := fun l => .ok (String.join l), emptyErr := { cls := .user 9999 } }
+
+/-- case {"kind":"erritem","shape":"alone"|"then"|"pass"|"fanin","chunks":[…],"at":k?,"err":name,
+    "producer":natives,"consumer":natives}: a producer that sends `chunks` with an error item of the
+    named shape in front of chunk `at` (none: a healthy stream), drained by whatever follows.
+    → per paradigm {"ok": text} | {"err": class}. Every paradigm drains the producer's stream with an
+    identity comparison (the framework's loop by the fact, the callers' loops by construction). -/
+def handleErrItem (c : Json) : JE Json := do
+  let chunks ← J.strList c "chunks"
+  let at_ := (c.getObjVal? "at").toOption.bind (fun x => x.getNat?.toOption)
+  let rel := eofRelOf (J.strD c "err" "leaf")
+  let items : List (Item String) := match at_ with
+    | none => chunks.map .chunk
+    | some k => (chunks.take k).map .chunk ++ [.fail rel { cls := .user 7 }] ++ (chunks.drop k).map .chunk
+  let (_, hs, _, ht) := natives (Json.mkObj [("native", Json.str (J.strD c "producer" "s"))])
+  -- a producer without a natively streaming form fails at call time (whatever the error value is)
+  let s : LStream String :=
+    if hs || ht then view true items
+    else match at_ with
+      | none => .ofList [String.join chunks]
+      | some _ => { chunks := [], err := some { cls := .user 7 } }
+  let shape := J.strD c "shape" "alone"
+  let fin : String → String := fun v =>
+    if shape == "then" then v ++ "|c" else if shape == "fanin" then "kp=" ++ v ++ ";kq=healthy;" else v
+  let r : Except Err String := (lazyConcat strCo s).map fin
+  let rj : Json := match r with
+    | .ok v => Json.mkObj [("ok", Json.str v)]
+    | .error e => Json.mkObj [("err", Json.str (toString (repr e.cls)))]
+  pure (Json.mkObj [("invoke", rj), ("stream", rj), ("collect", rj), ("transform", rj)])
+
 /-! ### family "fmap": map chunks through field mappings (`Model/C04FMap.lean`) -/
 
 def fvalOf (s : String) : FVal :=
@@ -225,6 +264,7 @@ def handleFMap (c : Json) : JE Json := do
 def handle (c : Json) : JE Json := do
   if J.strD c "kind" "" == "keyval" then return (← handleKeyVal c)
   if J.strD c "kind" "" == "fmap" then return (← handleFMap c)
+  if J.strD c "kind" "" == "erritem" then return (← handleErrItem c)
   let (gv, gs) ← parseBoth (lazyOps flatZero) (← J.field c "g")
   let (_, gd) ← parseBoth disjointOps (← J.field c "g")
   let x ← J.str c "input"
